@@ -29,8 +29,12 @@ def load_exclude():
 
 
 class Harness:
-    def __init__(self, work, flags, only=None, cxx="g++", ntus=15, label="san", subset=None):
+    def __init__(self, work, flags, only=None, cxx="g++", ntus=15, label="san", subset=None, runtime="c20_rt.cpp",
+                 no_models=False, inline_twins=False):
         self.subset = subset
+        self.runtime = runtime
+        self.no_models = no_models
+        self.inline_twins = inline_twins
         self.work = work
         self.flags = flags
         self.cxx = cxx
@@ -52,13 +56,13 @@ class Harness:
         t0 = time.time()
         os.makedirs(self.work, exist_ok=True)
         shutil.copy(os.path.join(SIMDIR, "c20_rt.hpp"), os.path.join(self.work, "c20_rt.hpp"))
-        shutil.copy(os.path.join(SIMDIR, "c20_rt.cpp"), os.path.join(self.work, "c20_rt.cpp"))
+        shutil.copy(os.path.join(SIMDIR, self.runtime), os.path.join(self.work, self.runtime))
         for rnd in range(8):
             excl = set(self.exclude) | set(self.dropped)
-            self.gen = HarnessGen(self.cat, exclude=excl, only=self.only)
+            self.gen = HarnessGen(self.cat, exclude=excl, only=self.only, no_models=self.no_models)
             with open(os.path.join(self.work, "c20_prelude.hpp"), "w") as f:
                 f.write(self.gen.prelude())
-            tus = self.gen.translation_units(self.ntus, self.subset)
+            tus = self.gen.translation_units(self.ntus, self.subset, self.inline_twins)
             tus = {fn: text for fn, text in tus.items() if "vrt::OpEntry" in text}
             todo = []
             for fn, text in tus.items():
@@ -70,7 +74,7 @@ class Harness:
                     todo.append(fn)
             todo.sort(key=lambda fn: -len(tus[fn]))
             if rnd == 0:
-                todo.append("c20_rt.cpp")
+                todo.append(self.runtime)
 
             def comp(fn):
                 src = os.path.join(self.work, fn)
@@ -81,15 +85,17 @@ class Harness:
             res = pmap(comp, todo)
             bad = [(fn, err) for fn, rc, err in res if rc != 0]
             if not bad:
-                self.objects = [os.path.join(self.work, fn[:-4] + ".o") for fn in sorted(tus)] + [os.path.join(self.work, "c20_rt.o")]
+                self.op_objects = [os.path.join(self.work, fn[:-4] + ".o") for fn in sorted(tus)]
+                self.rt_object = os.path.join(self.work, self.runtime[:-4] + ".o")
+                self.objects = self.op_objects + [self.rt_object]
                 break
             # automatic fallback: drop exactly the ops named by 'required from here' and retry
             new = 0
             for fn, err in bad:
-                if fn == "c20_rt.cpp":
+                if fn == self.runtime:
                     return "runtime does not compile:\n" + err[-3000:]
                 lines = tus[fn].split("\n")
-                for m in re.finditer(r"%s:(\d+):\d+:\s+(?:required from here|error)" % re.escape(fn), err):
+                for m in re.finditer(r"%s:(\d+):\d+:\s+(?:required from here|error|note: in instantiation)" % re.escape(fn), err):
                     ln = int(m.group(1)) - 1
                     mm = re.search(r"case (\d+): ", lines[ln]) if 0 <= ln < len(lines) else None
                     if not mm:
@@ -115,6 +121,9 @@ class Harness:
             return "link failed:\n" + err.decode(errors="replace")[-4000:]
         self.exe = exe
         self.build_s = time.time() - t0
+        if self.runtime != "c20_rt.cpp":
+            self.ops = {n: 0 for n in self.gen.instances}
+            return None
         rc, out, err = run([exe, "--list"], timeout=120)
         self.ops = {}
         for line in out.decode().splitlines():
@@ -140,6 +149,8 @@ def plan_text(runs):
         for o in ops:
             if "cfg" in o:
                 out.append("CFG %d %d %d %d %d" % tuple(o["cfg"]))
+            elif "mode" in o:
+                out.append("MODE %d" % o["mode"])
             elif "rep" in o:
                 out.append("REP %s %d %d %d" % (o["name"], o["seed"], o["rep"], o["vary"]))
             else:
@@ -727,6 +738,10 @@ def main(tier, seed):
     envb = gen_enumeration(hs, rng, draws=1, faults=False)
     for label_, env_ in (("env:LANG=missing", {"LANG": "xx_XX.UTF-8", "LC_CTYPE": "yy_YY.ISO-8859-15"}), ("env:LC_ALL=C.UTF-8", {"LC_ALL": "C.UTF-8"})):
         execute(label_, hs.exe, chunked(envb, 270000, size=512), env=env_)
+    # 3c. ambient floating-point state: the fault-free batch under each non-default rounding mode
+    for mode in (1, 2, 3):
+        runs_ = [(280000 + mode * 3000 + rid, [{"mode": mode}] + ops_) for rid, ops_ in chunked(envb, 0, size=512)]
+        execute("rounding-mode-%d" % mode, hs.exe, runs_)
     # 4a. endurance: the same call tens of thousands of times in one process
     endu = gen_endurance(hs, rng, thorough)
     execute("endurance", hs.exe, [(500000 + i, ops_) for i, ops_ in enumerate(endu)])
